@@ -17,3 +17,4 @@ for c in $(git rev-list --reverse main..agent-$ID); do
 done
 cd /verif || exit 1
 git merge --no-edit agent-$ID 2>&1 | tail -3
+if git status --short | grep -q '^UU evidence/'; then git checkout --theirs evidence/ && git add evidence && git commit -q --no-edit && echo 'resolved evidence conflict (theirs)'; fi
